@@ -1,7 +1,7 @@
 (* Props/C06.v — At-most-once execution of an entry (replay protection).
    Only statements, each closed by [exact]; proofs live in Lemmas/. *)
 From Model Require Import Examples.
-From Lemmas Require Import ChainLemmas HoldingLemmas StatusLemmas HistoryLemmas HistoryLemmas2 HistoryLemmas3.
+From Lemmas Require Import ChainLemmas HoldingLemmas StatusLemmas HistoryLemmas HistoryLemmas2 HistoryLemmas3 TotalityChain ExecExact WindowLemmas.
 Open Scope Z_scope.
 
 (* Execution writes a relation row for the entry hash and relation rows are never deleted: once
@@ -24,6 +24,35 @@ Proof. exact held_height_not_revisited. Qed.
 Print Assumptions C06_held_height_is_not_revisited.
 (* (recorded rates are never removed — C12_rates_immutable — so "c1 is rated" stays true in every
    later state; [apply_holding] iterates over exactly this window: apply_holding_uses_window) *)
+
+(* "Exactly once", end to end.  In any state: a held height g below some rated height lies in the window of exactly ONE rated
+   height — the least rated height above g ... *)
+Theorem C06_held_height_in_exactly_one_window : forall s g r0, 0 <= g -> rated s r0 -> g < r0 ->
+  exists r, rated s r /\ In g (window s r) /\ forall r', rated s r' -> In g (window s r') -> r' = r.
+Proof. exact held_height_in_exactly_one_window. Qed.
+Print Assumptions C06_held_height_in_exactly_one_window.
+(* ... and over a whole chain (heights increasing, nothing rated beforehand): among ALL blocks of the chain exactly one looks at the
+   batches held at g — the block at the first rated height above g; the window that block iterates over mid-block is the window of
+   the final state (recorded rates never change), and a block that ends up unrated ran no holding pass at all
+   (WindowLemmas.chain_holding_pass). *)
+Theorem C06_chain_held_height_exactly_one_block : forall c h0 bs s0 m0 sf mf g b0,
+  increasing_from h0 bs -> (forall k, h0 <= k -> rates s0 !! k = None) -> replay c s0 m0 bs = Done (sf, mf) ->
+  0 <= g -> h0 <= g + 1 -> In b0 bs -> g < b_height b0 -> rated sf (b_height b0) ->
+  exists b, In b bs /\ first_rated_above sf g (b_height b) /\ b_height b <= b_height b0 /\ In g (window sf (b_height b)) /\
+            forall b', In b' bs -> rated sf (b_height b') -> In g (window sf (b_height b')) -> b' = b.
+Proof. exact chain_held_height_exactly_one_block. Qed.
+Print Assumptions C06_chain_held_height_exactly_one_block.
+Theorem C06_chain_block_runs_holding_over_the_final_window : forall c h0 s0 m0 pre b post sf mf,
+  increasing_from h0 (pre ++ b :: post) -> (forall k, h0 <= k -> rates s0 !! k = None) ->
+  replay c s0 m0 (pre ++ b :: post) = Done (sf, mf) -> c_TransactionConversionActivation c <= b_height b ->
+  exists cm mem s' mem', replay c s0 m0 pre = Done (cm, mem) /\ step_block c cm mem b = Done (s', mem') /\ replay c s' mem' post = Done (sf, mf) /\
+    ((rates sf !! b_height b = None /\ ~ block_rated c cm b /\ rates s' = rates cm)
+     \/ (exists m s1 s2, rates sf !! b_height b = Some m /\ block_rated c cm b /\ rates cm !! b_height b = None /\
+          is_empty_map m = false /\ rates s1 = <[b_height b := m]> (rates cm) /\
+          holding_pass_over c cm (b_height b) s1 m (fst (get_averages cm (c_AveragePeriod c) mem (last_rated_below sf (b_height b)))) (window sf (b_height b)) = Ok s2 /\
+          window s1 (b_height b) = window sf (b_height b) /\
+          forall g, In g (window sf (b_height b)) <-> 0 <= g /\ first_rated_above sf g (b_height b))).
+Proof. exact chain_holding_pass. Qed.
 
 (* An entry written to the chain again has no effect, whether its first copy was executed ... *)
 Theorem C06_executed_entry_again_is_inert : forall c h s order e,
